@@ -17,6 +17,7 @@ import (
 	"github.com/cloudwego/dynamicgo/conv"
 	"github.com/cloudwego/dynamicgo/conv/j2t"
 	"github.com/cloudwego/dynamicgo/thrift"
+	"github.com/cloudwego/dynamicgo/thrift/annotation"
 	"github.com/cloudwego/dynamicgo/verifhook"
 
 	"verif/engine/core"
@@ -32,6 +33,12 @@ const (
 	NOpts = 5
 )
 
+// further bits understood by the server (not part of C18's own option sweep)
+const (
+	OEnableValueMapping = 1 << (NOpts + iota)
+	OWriteOptionalField
+)
+
 func ConvOptions(bits int) conv.Options {
 	return conv.Options{
 		String2Int64:         bits&OString2Int64 != 0,
@@ -39,6 +46,8 @@ func ConvOptions(bits int) conv.Options {
 		DisallowUnknownField: bits&ODisallowUnknownField != 0,
 		WriteDefaultField:    bits&OWriteDefaultField != 0,
 		WriteRequireField:    bits&OWriteRequireField != 0,
+		EnableValueMapping:   bits&OEnableValueMapping != 0,
+		WriteOptionalField:   bits&OWriteOptionalField != 0,
 	}
 }
 
@@ -175,6 +184,7 @@ func readFrame(r *bufio.Reader, v interface{}) error {
 // implementation compiled into THIS binary (the portable one when built with -tags go1.25).
 // A request that does not finish within 20 s makes the server exit(3) (the client reports it).
 func ServerMain() {
+	annotation.InitAGWAnnos() // the agw.* name-case annotations C02's key programs use (no effect on IDLs without them)
 	_ = syscall.Setrlimit(syscall.RLIMIT_AS, &syscall.Rlimit{Cur: 4 << 30, Max: 4 << 30})
 	in := bufio.NewReaderSize(os.Stdin, 1<<16)
 	out := bufio.NewWriterSize(os.Stdout, 1<<16)
